@@ -48,7 +48,7 @@ package commonmark
 //@   decreases b - a
 //@   ih AllBlank_at(src, a, b - 1, j)
 
-//@ spec RdOK(r *inlineByteReader) bool = !isnil(r) && NodesIn(r.spans, len(r.source)) && NodesSorted(r.spans) && NodesBlank(r.spans, r.source) && 0 <= r.pos && r.pos <= len(r.source) && len(r.source) < 1152921504606846976 && 0 <= r.virtualPos && r.virtualPos <= 1152921504606846976 && -1 <= r.prevPos && r.prevPos <= len(r.source)
+//@ spec RdOK(r *inlineByteReader) bool = !isnil(r) && NodesIn(r.spans, len(r.source)) && NodesSorted(r.spans) && NodesBlank(r.spans, r.source) && 0 <= r.pos && r.pos <= len(r.source) && len(r.source) < 1152921504606846976 && 0 <= r.virtualPos && r.virtualPos <= 1152921504606846976 && -1 <= r.prevPos && (r.prevPos < len(r.source) || r.prevPos == -1)
 
 //@ -- the node under the position: first node of the remaining list containing it; the list is cut to start there
 //@ func (*inlineByteReader).currentNode
@@ -63,10 +63,16 @@ package commonmark
 
 //@ -- the byte under the position as the scanners see it: 0 at the end, a space inside an indent node, a byte of
 //@ -- U+FFFD for a NUL; any other value is the source byte itself
+//@ -- the value of current() in a state where the node list has been cut to the position (which current() itself does)
+//@ spec CurByte(r *inlineByteReader) int = r.pos >= len(r.source) ? 0 : ((len(r.spans) > 0 && r.spans[0].kind == IndentKind) ? 0x20 : (r.source[r.pos] == 0 ? FFFDByte(r.virtualPos) : r.source[r.pos]))
+//@ spec RdCut(r *inlineByteReader) bool = r.pos >= len(r.source) || len(r.spans) == 0 || (r.spans[0].span.Start <= r.pos && r.pos < r.spans[0].span.End)
+
 //@ func (*inlineByteReader).current
 //@   requires[ok] RdOK(r)
 //@   modifies r.spans
 //@   ensures[ok] RdOK(r)
+//@   ensures[val] result == CurByte(r) && RdCut(r)
+//@   ensures[again] old(RdCut(r)) ==> (len(r.spans) == len(old(r.spans)) && (len(r.spans) > 0 ==> aliases(r.spans, old(r.spans))))
 //@   ensures[byte] (result != 0 && result != 0x20 && result < 0x80) ==> (r.pos < len(r.source) && r.source[r.pos] == result)
 //@   ensures[suffix] len(r.spans) <= len(old(r.spans)) && (len(r.spans) > 0 ==> (sameArray(r.spans, old(r.spans)) && offsetOf(r.spans) + len(r.spans) == offsetOf(old(r.spans)) + len(old(r.spans))))
 //@   ensures[zero] (len(old(r.spans)) > 0 && old(r.spans[0].span.Start) <= r.pos && r.pos < old(r.spans[0].span.End)) ==> (len(r.spans) == len(old(r.spans)) && aliases(r.spans, old(r.spans)))
@@ -106,9 +112,12 @@ package commonmark
 //@   ensures[ok] RdOK(r)
 //@   ensures[prev] (result || r.pos != old(r.pos)) ==> r.prevPos == old(r.pos)
 //@   ensures[mono] r.pos >= old(r.pos) && (!result ==> r.pos <= old(r.pos) + 1)
+//@   ensures[none] len(old(r.spans)) == 0 ==> (!result && r.pos == old(r.pos))
+//@   ensures[keep] (!result && r.pos == old(r.pos)) ==> (r.prevPos == old(r.prevPos) && r.virtualPos == old(r.virtualPos))
 //@   ensures[inside] (len(old(r.spans)) > 0 && old(r.spans[0].span.Start) <= old(r.pos) && old(r.pos) + 1 < old(r.spans[0].span.End) && old(r.spans[0].kind) != IndentKind)
 //@       ==> (result && r.pos == old(r.pos) + 1 && len(r.spans) == len(old(r.spans)) && aliases(r.spans, old(r.spans)))
 //@   ensures[virt] (result && r.pos == old(r.pos)) ==> r.virtualPos == old(r.virtualPos) + 1
+//@   ensures[stay] (result && old(RdCut(r)) && old(r.pos) < len(r.source) && len(old(r.spans)) > 0 && old(r.spans[0].kind) != IndentKind) ==> r.pos > old(r.pos)
 //@   ensures[land] (result && r.pos > old(r.pos) + 1) ==> (len(r.spans) > 0 && r.pos == r.spans[0].span.Start && r.pos < r.spans[0].span.End + 1
 //@       && (r.spans[0].kind == UnparsedKind || r.spans[0].kind == TextKind || r.spans[0].kind == IndentKind))
 //@   ensures[suffix] len(r.spans) <= len(old(r.spans)) && (len(r.spans) > 0 ==> (sameArray(r.spans, old(r.spans)) && offsetOf(r.spans) + len(r.spans) == offsetOf(old(r.spans)) + len(old(r.spans))))
@@ -202,3 +211,67 @@ package commonmark
 //@   loop 5: invariant[pfx] HasPrefixAt(r.source, r.pos - i, "]]>")
 //@   loop 5: decreases 2 - i
 //@   serves C13, C02, C04
+
+// ---------------------------------------------------------------------------
+// parseLinkLabel (C13, C02): a recognised label starts at the reader's position
+// with '[', ends right after a ']', and its inner span is a non-empty range
+// strictly after the '[' and inside the label.
+// ---------------------------------------------------------------------------
+
+//@ func parseLinkLabel
+//@   requires[ok] RdOK(r)
+//@   modifies r.spans, r.pos, r.virtualPos, r.prevPos
+//@   ensures[ok] RdOK(r) && r.pos >= old(r.pos)
+//@   ensures[null] result.span.End < 0 ==> (result.span.Start == -1 && result.span.End == -1 && result.inner.Start == -1 && result.inner.End == -1)
+//@   ensures[shape] result.span.End >= 0 ==> (result.span.Start == old(r.pos) && result.span.Start < result.span.End && result.span.End <= len(r.source)
+//@       && r.source[result.span.Start] == '[' && r.source[result.span.End - 1] == ']')
+//@   ensures[inner] result.span.End >= 0 ==> (result.span.Start < result.inner.Start && result.inner.Start < result.inner.End && result.inner.End <= result.span.End)
+//@   loop 0: invariant[ok] RdOK(r) && r.pos >= old(r.pos) && framed() && old(r.pos) < len(r.source) && r.source[old(r.pos)] == '[' && 0 <= chars && chars < 999
+//@   loop 0: invariant[res] result.span.Start == old(r.pos) && result.span.End == -1 && result.inner.Start == -1 && result.inner.End == -1
+//@   loop 0: decreases RdMeasure(r)
+//@   loop 1: invariant[ok] RdOK(r) && r.pos >= old(r.pos) && framed() && old(r.pos) < len(r.source) && r.source[old(r.pos)] == '[' && 0 <= chars && chars <= 1000
+//@   loop 1: invariant[res] result.span.Start == old(r.pos) && result.span.End == -1 && result.inner.Start > old(r.pos) && result.inner.Start <= r.pos
+//@   loop 1: invariant[end] result.inner.End == -1 ? (r.pos == result.inner.Start && RdCut(r) && !IsSpaceTabEOL(CurByte(r)) && CurByte(r) != '[' && CurByte(r) != ']' && chars < 999)
+//@       : (result.inner.Start < result.inner.End && result.inner.End <= r.pos + 1)
+//@   loop 1: decreases RdMeasure(r)
+//@   serves C13, C02, C04
+
+// ---------------------------------------------------------------------------
+// Link destination and title scanners: a recognised destination or title starts
+// at the reader's position and is a valid, non-empty range of the source; a
+// pointy destination starts with '<', a title with its opening delimiter.
+// (That the text span inside the delimiters is a valid range needs the reader to
+// stand inside a node after every successful step, which RdOK does not carry.)
+// ---------------------------------------------------------------------------
+
+//@ func parseLinkDestination
+//@   requires[ok] RdOK(r)
+//@   modifies r.spans, r.pos, r.virtualPos, r.prevPos
+//@   ensures[ok] RdOK(r) && r.pos >= old(r.pos)
+//@   ensures[null] result.span.End < 0 ==> (result.span.Start == -1 && result.span.End == -1 && result.text.Start == -1 && result.text.End == -1)
+//@   ensures[span-start] result.span.End >= 0 ==> result.span.Start == old(r.pos)
+//@   ensures[span-valid] result.span.End >= 0 ==> result.span.Start <= result.span.End
+//@   ensures[span-in] result.span.End >= 0 ==> result.span.End <= len(r.source)
+//@   ensures[pointy-span] (result.span.End >= 0 && r.source[old(r.pos)] == '<') ==> result.span.Start < result.span.End
+//@   ensures[pointy] (result.span.End >= 0 && r.source[old(r.pos)] == '<') ==> (result.text.Start == result.span.Start + 1 && result.text.End == result.span.End - 1)
+//@   ensures[bare] (result.span.End >= 0 && r.source[old(r.pos)] != '<') ==> (result.text.Start == result.span.Start && result.text.End == result.span.End)
+//@   loop 0: invariant[ok] RdOK(r) && r.pos >= old(r.pos) && framed() && old(r.pos) < len(r.source) && r.source[old(r.pos)] == '<'
+//@   loop 0: decreases RdMeasure(r)
+//@   loop 1: invariant[ok] RdOK(r) && r.pos >= old(r.pos) && framed() && old(r.pos) < len(r.source) && r.source[old(r.pos)] != '<'
+//@   loop 1: invariant[paren-lo] -1 <= parenCount
+//@   loop 1: invariant[paren-hi] parenCount <= r.pos - old(r.pos)
+//@   loop 1: decreases RdMeasure(r)
+//@   serves C02, C04
+
+//@ func parseLinkTitle
+//@   requires[ok] RdOK(r)
+//@   modifies r.spans, r.pos, r.virtualPos, r.prevPos
+//@   ensures[ok] RdOK(r) && r.pos >= old(r.pos)
+//@   ensures[null] result.span.End < 0 ==> (result.span.Start == -1 && result.span.End == -1 && result.text.Start == -1 && result.text.End == -1)
+//@   ensures[span] result.span.End >= 0 ==> (result.span.Start == old(r.pos) && result.span.Start < result.span.End && result.span.End <= len(r.source)
+//@       && (r.source[result.span.Start] == 0x27 || r.source[result.span.Start] == '"' || r.source[result.span.Start] == '('))
+//@   ensures[text] result.span.End >= 0 ==> (result.text.Start == result.span.Start + 1 && result.text.End == result.span.End - 1)
+//@   loop 0: invariant[ok] RdOK(r) && r.pos >= old(r.pos) && framed() && start == old(r.pos) && start < len(r.source)
+//@       && (r.source[start] == 0x27 || r.source[start] == '"' || r.source[start] == '(')
+//@   loop 0: decreases RdMeasure(r)
+//@   serves C02, C04
